@@ -94,7 +94,7 @@ Lemma admin_preserved_step : forall sh auth s op s' b d q,
 Proof.
   intros sh auth s op s' b d q Hsh Hst Had Hsig. destruct op; cbn [ostep] in Hst.
   - (* create *)
-    destruct (wf && match admin_of s (p, sub) with None => true | Some _ => false end) eqn:E; inv_step Hst; [|exact Had].
+    destruct (wf && negb (p =? 0) && match admin_of s (p, sub) with None => true | Some _ => false end) eqn:E; inv_step Hst; [|exact Had].
     unfold admin_of. cbn [o_admin]. rewrite dfind_cons. destruct (denom_eqb (p, sub) d) eqn:Ed; [|exact Had].
     apply denom_eqb_eq in Ed. subst d. apply andb_true_iff in E as [_ E]. rewrite Had in E. discriminate.
   - (* change admin *)
@@ -115,34 +115,206 @@ Proof.
   - destruct (module =? 1); inv_step Hst; [|exact Had].
     rewrite genesis_preserves_admin_lemma by exact Hsh. exact Had.
   - inv_step Hst. exact Had.
+  - inv_step Hst. exact Had.
 Qed.
 
-(** An ERC20 binding, once made, is altered by governance only — provided the duplicate-binding
-    guard reads the index that is written (keyed by the ERC20 contract). *)
-Lemma binding_preserved_step : forall sh auth s op s' b e d,
-  guard_on_written_index sh = true ->
-  ostep sh s op = (s', b) -> e2d s e = Some d -> signer auth op <> Some auth ->
-  e2d s' e = Some d.
+(** ** ERC20 bindings.
+    The forward index (denom -> erc20) is injective and contained in the reverse index
+    (erc20 -> denom): an invariant of every history without governance steps (governance may bind
+    anything to anything). *)
+Definition fwd_inj (s : ost) : Prop := forall d1 d2 e, d2e s d1 = Some e -> d2e s d2 = Some e -> d1 = d2.
+Definition fwd_in_rev (s : ost) : Prop := forall d e, d2e s d = Some e -> e2d s e = Some d.
+Definition bindings_consistent (s : ost) : Prop := fwd_inj s /\ fwd_in_rev s.
+
+Lemma dfind_unique : forall A (d : denom) (e : A) l,
+  (forall v, In (d, v) l -> v = e) -> (exists v, In (d, v) l) -> dfind d l = Some e.
 Proof.
-  intros sh auth s op s' b e d Hsh Hst Hb Hsig. destruct op; cbn [ostep] in Hst.
-  - destruct (wf && match admin_of s (p, sub) with None => true | Some _ => false end); inv_step Hst; exact Hb.
+  intros A d e l. induction l as [|[k v] r IH]; intros Hall [v0 Hin]; [destruct Hin|].
+  rewrite dfind_cons. destruct (denom_eqb k d) eqn:E.
+  - apply denom_eqb_eq in E. subst k. f_equal. apply Hall. left. reflexivity.
+  - apply IH; [intros w Hw; apply Hall; right; exact Hw|].
+    destruct Hin as [Hin|Hin]; [inversion Hin; subst; rewrite denom_eqb_refl in E; discriminate | exists v0; exact Hin].
+Qed.
+
+Lemma dfind_none : forall A (d : denom) (l : list (denom * A)), (forall v, ~ In (d, v) l) -> dfind d l = None.
+Proof.
+  intros A d l. induction l as [|[k v] r IH]; intros H; [reflexivity|].
+  rewrite dfind_cons. destruct (denom_eqb k d) eqn:E.
+  - apply denom_eqb_eq in E. subst k. exfalso. apply (H v). left. reflexivity.
+  - apply IH. intros w Hw. apply (H w). right. exact Hw.
+Qed.
+
+Lemma dfind_in : forall A (d : denom) (e : A) l, dfind d l = Some e -> In (d, e) l.
+Proof.
+  intros A d e l. induction l as [|[k v] r IH]; [discriminate|].
+  rewrite dfind_cons. destruct (denom_eqb k d) eqn:E.
+  - intros H. inversion H; subst. apply denom_eqb_eq in E. subst. left. reflexivity.
+  - intros H. right. apply IH. exact H.
+Qed.
+
+Lemma zfind_unique : forall A (x : Z) (e : A) l,
+  (forall v, In (x, v) l -> v = e) -> (exists v, In (x, v) l) -> zfind x l = Some e.
+Proof.
+  intros A x e l. induction l as [|[k v] r IH]; intros Hall [v0 Hin]; [destruct Hin|].
+  rewrite zfind_cons. destruct (k =? x) eqn:E.
+  - apply Z.eqb_eq in E. subst k. f_equal. apply Hall. left. reflexivity.
+  - apply IH; [intros w Hw; apply Hall; right; exact Hw|].
+    destruct Hin as [Hin|Hin]; [inversion Hin; subst; rewrite Z.eqb_refl in E; discriminate | exists v0; exact Hin].
+Qed.
+
+Lemma in_dedup_keys : forall A (d : denom) (e : A) l seen,
+  dfind d l = Some e -> existsb (denom_eqb d) seen = false -> In d (dedup_keys l seen).
+Proof.
+  intros A d e l. induction l as [|[k v] r IH]; intros seen Hf Hs; [discriminate|].
+  rewrite dfind_cons in Hf. cbn [dedup_keys]. destruct (denom_eqb k d) eqn:E.
+  - apply denom_eqb_eq in E. subst k. rewrite Hs. left. reflexivity.
+  - destruct (existsb (denom_eqb k) seen).
+    + apply IH; assumption.
+    + right. apply IH; [exact Hf|]. cbn [existsb]. rewrite Hs, orb_false_r.
+      destruct (denom_eqb d k) eqn:E2; [|reflexivity]. apply denom_eqb_eq in E2. subst. rewrite denom_eqb_refl in E. discriminate.
+Qed.
+
+Lemma in_complete_order : forall (d : denom) (e : Z) order l, dfind d l = Some e -> In d (complete_order order l).
+Proof.
+  intros d e order l H. unfold complete_order. apply in_or_app.
+  destruct (existsb (denom_eqb d) order) eqn:E.
+  - left. apply existsb_exists in E as [d' [Hin Hd]]. apply denom_eqb_eq in Hd. subst. exact Hin.
+  - right. apply filter_In. split; [eapply in_dedup_keys; eauto | rewrite E; reflexivity].
+Qed.
+
+Lemma exported_pairs_sound : forall order l d e, In (d, e) (exported_pairs order l) -> dfind d l = Some e.
+Proof.
+  intros order l d e H. unfold exported_pairs in H. apply in_flat_map in H as [d0 [_ H]].
+  destruct (dfind d0 l) as [e0|] eqn:E; [|destruct H]. destruct H as [H|[]]. inversion H; subst. exact E.
+Qed.
+
+Lemma exported_pairs_complete : forall order l d e, dfind d l = Some e -> In (d, e) (exported_pairs order l).
+Proof.
+  intros order l d e H. unfold exported_pairs. apply in_flat_map. exists d. split; [eapply in_complete_order; eauto|].
+  rewrite H. left. reflexivity.
+Qed.
+
+(** The skyway round trip keeps the forward index ... *)
+Lemma sky_roundtrip_d2e : forall order s d, d2e (sky_roundtrip order s) d = d2e s d.
+Proof.
+  intros order s d. unfold d2e, sky_roundtrip. cbn [o_d2e].
+  destruct (dfind d (o_d2e s)) as [e|] eqn:E.
+  - apply dfind_unique.
+    + intros v Hv. apply in_rev in Hv. apply exported_pairs_sound in Hv. congruence.
+    + exists e. apply -> in_rev. apply exported_pairs_complete. exact E.
+  - apply dfind_none. intros v Hv. apply in_rev in Hv. apply exported_pairs_sound in Hv. congruence.
+Qed.
+
+(** ... and rebuilds the reverse index from it: where the forward index is injective every live
+    binding is found again, whatever the export order. *)
+Lemma sky_roundtrip_e2d_live : forall order s d e, fwd_inj s -> d2e s d = Some e -> e2d (sky_roundtrip order s) e = Some d.
+Proof.
+  intros order s d e Hinj H. unfold e2d, sky_roundtrip. cbn [o_e2d]. apply zfind_unique.
+  - intros v Hv. apply in_rev in Hv. apply in_map_iff in Hv as [[d' e'] [Heq Hin]]. cbn in Heq. inversion Heq; subst.
+    apply exported_pairs_sound in Hin. eapply Hinj; eauto.
+  - exists d. apply -> in_rev. apply in_map_iff. exists (d, e). split; [reflexivity|]. apply exported_pairs_complete. exact H.
+Qed.
+
+Lemma sky_roundtrip_consistent : forall order s, bindings_consistent s -> bindings_consistent (sky_roundtrip order s).
+Proof.
+  intros order s [Hi Hr]. split.
+  - intros d1 d2 e H1 H2. rewrite sky_roundtrip_d2e in H1, H2. eapply Hi; eauto.
+  - intros d e H. rewrite sky_roundtrip_d2e in H. apply sky_roundtrip_e2d_live; assumption.
+Qed.
+
+(** The invariant survives every step that governance does not sign — provided the duplicate-binding
+    guard reads the index that is written (keyed by the ERC20 contract). *)
+Lemma bindings_consistent_step : forall sh auth s op s' b,
+  guard_on_written_index sh = true ->
+  ostep sh s op = (s', b) -> signer auth op <> Some auth -> bindings_consistent s -> bindings_consistent s'.
+Proof.
+  intros sh auth s op s' b Hsh Hst Hsig HJ. destruct op; cbn [ostep] in Hst.
+  - destruct (wf && negb (p =? 0) && match admin_of s (p, sub) with None => true | Some _ => false end); inv_step Hst; exact HJ.
+  - destruct (admin_of s (dc, ds)) as [a|]; [|inv_step Hst; exact HJ].
+    destruct ((a =? p) && negb (p =? 0)); inv_step Hst; exact HJ.
+  - destruct (admin_of s (dc, ds)); inv_step Hst; exact HJ.
+  - destruct (admin_of s (dc, ds)) as [a|]; [|inv_step Hst; exact HJ].
+    destruct (ewf && (a =? p) && negb (p =? 0) && bind_guard_ok sh s (dc, ds) e) eqn:E; inv_step Hst; [|exact HJ].
+    apply andb_true_iff in E as [_ E]. unfold bind_guard_ok in E. unfold guard_on_written_index in Hsh. rewrite Hsh in E.
+    apply andb_true_iff in E as [E _]. destruct (e2d s e) as [d0|] eqn:Ee; [discriminate|]. clear E.
+    destruct HJ as [Hi Hr]. split.
+    + intros d1 d2 e1 H1 H2. unfold d2e in H1, H2. cbn [o_d2e] in H1, H2. rewrite dfind_cons in H1, H2.
+      destruct (denom_eqb (dc, ds) d1) eqn:E1; destruct (denom_eqb (dc, ds) d2) eqn:E2.
+      * apply denom_eqb_eq in E1, E2. congruence.
+      * inversion H1; subst e1. apply Hr in H2. congruence.
+      * inversion H2; subst e1. apply Hr in H1. congruence.
+      * eapply Hi; eauto.
+    + intros d1 e1 H1. unfold d2e in H1. cbn [o_d2e] in H1. rewrite dfind_cons in H1.
+      unfold e2d. cbn [o_e2d]. rewrite zfind_cons.
+      destruct (denom_eqb (dc, ds) d1) eqn:E1.
+      * inversion H1; subst e1. rewrite Z.eqb_refl. apply denom_eqb_eq in E1. subst. reflexivity.
+      * pose proof (Hr _ _ H1) as Hr1. destruct (e =? e1) eqn:E2; [apply Z.eqb_eq in E2; subst; congruence | exact Hr1].
+  - cbn in Hsig. congruence.
+  - destruct (d2e s (dc, ds)) as [e1|]; [destruct funded|]; inv_step Hst; exact HJ.
+  - destruct (pend s tx) as [[q0 e1]|]; [|inv_step Hst; exact HJ].
+    destruct (q0 =? p); [|inv_step Hst; exact HJ].
+    destruct (e2d s e1) as [d0|]; [|inv_step Hst; exact HJ].
+    destruct (1 <=? esc s d0); inv_step Hst; exact HJ.
+  - destruct (module =? 1); inv_step Hst; exact HJ.
+  - inv_step Hst. apply sky_roundtrip_consistent. exact HJ.
+  - inv_step Hst. exact HJ.
+Qed.
+
+(** The forward entry of a denom stays unless its admin (or governance) signs the step. *)
+Lemma forward_binding_preserved_step : forall sh auth s op s' b d e,
+  ostep sh s op = (s', b) -> signer auth op <> Some auth ->
+  (forall q, admin_of s d = Some q -> signer auth op <> Some q) ->
+  d2e s d = Some e -> d2e s' d = Some e.
+Proof.
+  intros sh auth s op s' b d e Hst Hsig Hadm Hb. destruct op; cbn [ostep] in Hst.
+  - destruct (wf && negb (p =? 0) && match admin_of s (p, sub) with None => true | Some _ => false end); inv_step Hst; exact Hb.
   - destruct (admin_of s (dc, ds)) as [a|]; [|inv_step Hst; exact Hb].
     destruct ((a =? p) && negb (p =? 0)); inv_step Hst; exact Hb.
   - destruct (admin_of s (dc, ds)); inv_step Hst; exact Hb.
-  - destruct (admin_of s (dc, ds)) as [a|]; [|inv_step Hst; exact Hb].
+  - destruct (admin_of s (dc, ds)) as [a|] eqn:Ea; [|inv_step Hst; exact Hb].
     destruct (ewf && (a =? p) && negb (p =? 0) && bind_guard_ok sh s (dc, ds) e0) eqn:E; inv_step Hst; [|exact Hb].
-    apply andb_true_iff in E as [_ E]. unfold bind_guard_ok in E. unfold guard_on_written_index in Hsh. rewrite Hsh in E.
-    apply andb_true_iff in E as [E _].
-    unfold e2d. cbn [o_e2d]. rewrite zfind_cons. destruct (e0 =? e) eqn:Ee; [|exact Hb].
-    apply Z.eqb_eq in Ee. subst e0. rewrite Hb in E. discriminate.
+    unfold d2e. cbn [o_d2e]. rewrite dfind_cons. destruct (denom_eqb (dc, ds) d) eqn:Ed; [|exact Hb].
+    apply denom_eqb_eq in Ed. subst d. exfalso.
+    apply andb_true_iff in E as [E _]. apply andb_true_iff in E as [E _]. apply andb_true_iff in E as [_ E].
+    apply Z.eqb_eq in E. subst a. apply (Hadm p Ea). reflexivity.
   - cbn in Hsig. congruence.
-  - destruct (d2e s (dc, ds)); [destruct funded|]; inv_step Hst; exact Hb.
+  - destruct (d2e s (dc, ds)) as [e1|]; [destruct funded|]; inv_step Hst; exact Hb.
   - destruct (pend s tx) as [[q0 e1]|]; [|inv_step Hst; exact Hb].
     destruct (q0 =? p); [|inv_step Hst; exact Hb].
     destruct (e2d s e1) as [d0|]; [|inv_step Hst; exact Hb].
     destruct (1 <=? esc s d0); inv_step Hst; exact Hb.
   - destruct (module =? 1); inv_step Hst; exact Hb.
+  - inv_step Hst. rewrite sky_roundtrip_d2e. exact Hb.
   - inv_step Hst. exact Hb.
+Qed.
+
+(** A native denom (creator 0) never gets a tokenfactory admin. *)
+Lemma native_no_admin_step : forall sh s op s' b d,
+  import_admin_last sh = true ->
+  ostep sh s op = (s', b) -> fst d = 0 -> admin_of s d = None -> admin_of s' d = None.
+Proof.
+  intros sh s op s' b d Hsh Hst Hn Had. destruct op; cbn [ostep] in Hst.
+  - destruct (wf && negb (p =? 0) && match admin_of s (p, sub) with None => true | Some _ => false end) eqn:E; inv_step Hst; [|exact Had].
+    unfold admin_of. cbn [o_admin]. rewrite dfind_cons. destruct (denom_eqb (p, sub) d) eqn:Ed; [|exact Had].
+    apply denom_eqb_eq in Ed. subst d. cbn in Hn. subst p.
+    apply andb_true_iff in E as [E _]. apply andb_true_iff in E as [_ E]. discriminate.
+  - destruct (admin_of s (dc, ds)) as [a|] eqn:Ea; [|inv_step Hst; exact Had].
+    destruct ((a =? p) && negb (p =? 0)); inv_step Hst; [|exact Had].
+    unfold admin_of. cbn [o_admin]. rewrite dfind_cons. destruct (denom_eqb (dc, ds) d) eqn:Ed; [|exact Had].
+    apply denom_eqb_eq in Ed. subst d. congruence.
+  - destruct (admin_of s (dc, ds)); inv_step Hst; exact Had.
+  - destruct (admin_of s (dc, ds)) as [a|]; [|inv_step Hst; exact Had].
+    destruct (ewf && (a =? p) && negb (p =? 0) && bind_guard_ok sh s (dc, ds) e); inv_step Hst; exact Had.
+  - inv_step Hst. exact Had.
+  - destruct (d2e s (dc, ds)); [destruct funded|]; inv_step Hst; exact Had.
+  - destruct (pend s tx) as [[q0 e]|]; [|inv_step Hst; exact Had].
+    destruct (q0 =? p); [|inv_step Hst; exact Had].
+    destruct (e2d s e) as [d0|]; [|inv_step Hst; exact Had].
+    destruct (1 <=? esc s d0); inv_step Hst; exact Had.
+  - destruct (module =? 1); inv_step Hst; [|exact Had].
+    rewrite genesis_preserves_admin_lemma by exact Hsh. exact Had.
+  - inv_step Hst. exact Had.
+  - inv_step Hst. exact Had.
 Qed.
 
 (** Pending-transfer ids are handed out by a counter: every id in use is at most the counter. *)
@@ -168,7 +340,7 @@ Qed.
 Lemma wf_ids_step : forall sh s op s' b, ostep sh s op = (s', b) -> wf_ids s -> wf_ids s'.
 Proof.
   intros sh s op s' b Hst Hwf. destruct op; cbn [ostep] in Hst.
-  - destruct (wf && match admin_of s (p, sub) with None => true | Some _ => false end); inv_step Hst; exact Hwf.
+  - destruct (wf && negb (p =? 0) && match admin_of s (p, sub) with None => true | Some _ => false end); inv_step Hst; exact Hwf.
   - destruct (admin_of s (dc, ds)) as [a|]; [|inv_step Hst; exact Hwf].
     destruct ((a =? p) && negb (p =? 0)); inv_step Hst; exact Hwf.
   - destruct (admin_of s (dc, ds)); inv_step Hst; exact Hwf.
@@ -188,6 +360,7 @@ Proof.
     eapply zfind_remove_some; eauto.
   - destruct (module =? 1); inv_step Hst; exact Hwf.
   - inv_step Hst. exact Hwf.
+  - inv_step Hst. exact Hwf.
 Qed.
 
 (** A pending transfer stays in its sender's name unless the sender signs the step. *)
@@ -197,7 +370,7 @@ Lemma pending_preserved_step : forall sh auth s op s' b tx p e,
   pend s' tx = Some (p, e).
 Proof.
   intros sh auth s op s' b tx p e Hwf Hst Hp Hsig. destruct op; cbn [ostep] in Hst.
-  - destruct (wf && match admin_of s (p0, sub) with None => true | Some _ => false end); inv_step Hst; exact Hp.
+  - destruct (wf && negb (p0 =? 0) && match admin_of s (p0, sub) with None => true | Some _ => false end); inv_step Hst; exact Hp.
   - destruct (admin_of s (dc, ds)) as [a|]; [|inv_step Hst; exact Hp].
     destruct ((a =? p0) && negb (p0 =? 0)); inv_step Hst; exact Hp.
   - destruct (admin_of s (dc, ds)); inv_step Hst; exact Hp.
@@ -215,6 +388,7 @@ Proof.
     + rewrite Hp in Ep. inversion Ep; subst. apply Z.eqb_eq in Eq. subst. cbn in Hsig. congruence.
     + rewrite zfind_remove_other by exact Hne. exact Hp.
   - destruct (module =? 1); inv_step Hst; exact Hp.
+  - inv_step Hst. exact Hp.
   - inv_step Hst. exact Hp.
 Qed.
 
@@ -240,15 +414,52 @@ Proof.
   eapply admin_preserved_step; eauto. apply Hs. left. reflexivity.
 Qed.
 
-Lemma objects_history_binding_lemma : forall sh auth ops s,
-  guard_on_written_index sh = true ->
-  (forall op, In op ops -> signer auth op <> Some auth) ->
-  forall e d, e2d s e = Some d -> e2d (orun sh ops s) e = Some d.
+(** A LIVE binding (the denom's forward entry and the matching reverse entry) of a denom administered
+    by q survives every history in which neither q nor governance signs — messages of other token
+    admins, genesis round trips of tokenfactory and of skyway included. *)
+Lemma objects_history_live_binding_lemma : forall sh auth ops s q d e,
+  guard_on_written_index sh = true -> import_admin_last sh = true -> bindings_consistent s ->
+  (forall op, In op ops -> signer auth op <> Some auth /\ signer auth op <> Some q) ->
+  admin_of s d = Some q -> d2e s d = Some e ->
+  admin_of (orun sh ops s) d = Some q /\ d2e (orun sh ops s) d = Some e /\ e2d (orun sh ops s) e = Some d.
 Proof.
-  intros sh auth ops. induction ops as [|op r IH]; intros s Hsh Hs e d Hb; [exact Hb|].
-  rewrite orun_cons. destruct (ostep sh s op) as [s' b] eqn:E. cbn [fst].
-  apply IH; [exact Hsh | intros o Ho; apply Hs; right; exact Ho |].
-  eapply binding_preserved_step; eauto. apply Hs. left. reflexivity.
+  intros sh auth ops. induction ops as [|op r IH]; intros s q d e Hg Hi HJ Hs Had Hb.
+  - split; [exact Had|]. split; [exact Hb|]. apply HJ. exact Hb.
+  - rewrite orun_cons. destruct (ostep sh s op) as [s' b] eqn:E. cbn [fst].
+    destruct (Hs op (or_introl eq_refl)) as [Hna Hnq].
+    apply IH; try assumption.
+    + eapply bindings_consistent_step; eauto.
+    + intros o Ho. apply Hs. right. exact Ho.
+    + eapply admin_preserved_step; eauto.
+    + eapply forward_binding_preserved_step; eauto. intros q' Hq'. congruence.
+Qed.
+
+(** The same for governance's bindings of native denoms: nobody but governance alters them. *)
+Lemma objects_history_native_binding_lemma : forall sh auth ops s d e,
+  guard_on_written_index sh = true -> import_admin_last sh = true -> bindings_consistent s ->
+  (forall op, In op ops -> signer auth op <> Some auth) ->
+  fst d = 0 -> admin_of s d = None -> d2e s d = Some e ->
+  d2e (orun sh ops s) d = Some e /\ e2d (orun sh ops s) e = Some d.
+Proof.
+  intros sh auth ops. induction ops as [|op r IH]; intros s d e Hg Hi HJ Hs Hn Had Hb.
+  - split; [exact Hb|]. apply HJ. exact Hb.
+  - rewrite orun_cons. destruct (ostep sh s op) as [s' b] eqn:E. cbn [fst].
+    pose proof (Hs op (or_introl eq_refl)) as Hna.
+    apply IH; try assumption.
+    + eapply bindings_consistent_step; eauto.
+    + intros o Ho. apply Hs. right. exact Ho.
+    + eapply native_no_admin_step; eauto.
+    + eapply forward_binding_preserved_step; eauto. intros q' Hq'. congruence.
+Qed.
+
+Lemma bindings_consistent_init1 : bindings_consistent init_env1.
+Proof.
+  split.
+  - intros d1 d2 e H1 H2. unfold d2e in *. cbn in H1, H2.
+    destruct (denom_eqb (0, 1) d1) eqn:E1; [|discriminate]. destruct (denom_eqb (0, 1) d2) eqn:E2; [|discriminate].
+    apply denom_eqb_eq in E1, E2. congruence.
+  - intros d e H. unfold d2e in H. cbn in H. destruct (denom_eqb (0, 1) d) eqn:E1; [|discriminate].
+    inversion H; subst. apply denom_eqb_eq in E1. subst. reflexivity.
 Qed.
 
 Lemma objects_history_pending_lemma : forall sh auth ops s p,
